@@ -444,3 +444,20 @@ Proof.
   split; [exact (net_write_multiline_ok _ Hne Hv)|]. split; [exact Hv|].
   rewrite <- (Forall2_len _ _ _ HF). exact H2.
 Qed.
+
+(** the unpatched functions do not have these properties *)
+Theorem unpatched_refuted :
+  (exists raw v, dnstxt_orig raw = Some v /\ ~ no_crlf v)
+  /\ (exists raw, ~ In 0%N raw /\ no_crlf raw /\ forall lit, cb_nomail_orig lit raw = Crash 7).
+Proof.
+  split.
+  - exists [108; 13; 10; 50; 53; 48; 32; 111; 107; 13; 10; 120]%N. eexists. split; [reflexivity|].
+    intros H. unfold no_crlf in H. rewrite Forall_forall in H.
+    destruct (H 13%N) as [H1 _]; [simpl; auto|]. now apply H1.
+  - exists ([53; 53; 48; 32; 53; 46; 55; 46; 49; 32]%N ++ repeat 120%N 501). split; [|split].
+    + intros Hin. apply in_app_or in Hin as [Hin|Hin]; [simpl in Hin; repeat (destruct Hin as [Hin|Hin]; [discriminate|]); exact Hin|].
+      apply repeat_spec in Hin. discriminate.
+    + unfold no_crlf. apply Forall_app. split; [repeat constructor; discriminate|].
+      apply Forall_forall. intros b Hb. apply repeat_spec in Hb. subst. split; discriminate.
+    + intros lit. vm_compute. reflexivity.
+Qed.
